@@ -324,9 +324,10 @@ fn gen_pattern(rng: &mut StdRng, cfg: &UniverseCfg) -> Pattern {
                 drop_reply: rng.gen_range(0..=6),
                 reset: rng.gen_range(0..=4),
             },
-            _ => Pattern::LaggingView {
+            91..=95 => Pattern::LaggingView {
                 style: if rng.gen_range(0..2) == 0 { CutStyle::Refuse } else { CutStyle::Blackhole },
             },
+            _ => Pattern::Calm,
         };
     }
 }
@@ -346,7 +347,7 @@ pub fn gen_phases(cfg: &UniverseCfg) -> Vec<Phase> {
         let prev_slow = phases
             .last()
             .is_some_and(|p: &Phase| p.patterns.iter().any(|x| matches!(x, Pattern::SlowLink { .. } | Pattern::SlowNode { .. })));
-        if prev_slow && rng.gen_range(0..100) < 35 {
+        if prev_slow && rng.gen_range(0..100) < 20 {
             // a reordering phase directly followed by a partial-view takeover
             phases.push(Phase {
                 dur_ms: dur,
@@ -404,7 +405,6 @@ pub struct Universe {
     pub harness_errors: Mutex<Vec<String>>,
     pub block_ids_built: Mutex<HashMap<String, (usize, u32)>>,
     pub attempt_counter: AtomicU64,
-    pub next_heights: Vec<std::sync::atomic::AtomicU32>,
 }
 
 pub fn decode_block_id(data: &[u8]) -> Option<String> {
@@ -497,6 +497,7 @@ pub fn setup(cfg: UniverseCfg, server_rt: &tokio::runtime::Handle) -> Result<Set
         shutdown,
         logical: AtomicU64::new(0),
         in_leader_state: (0..cfg.n_replicas).map(|_| AtomicBool::new(false)).collect(),
+        next_heights: (0..cfg.n_replicas).map(|_| std::sync::atomic::AtomicU32::new(1)).collect(),
         keys: KeyNames {
             lock: LEASE_KEY.as_bytes().to_vec(),
             epoch: format!("{LEASE_KEY}:epoch:token").into_bytes(),
@@ -510,7 +511,6 @@ pub fn setup(cfg: UniverseCfg, server_rt: &tokio::runtime::Handle) -> Result<Set
         server_rt.spawn(accept_loop(listener, shared.clone(), link, nodes[k].clone()));
     }
     let phases = gen_phases(&cfg);
-    let n_replicas = cfg.n_replicas;
     let universe = Arc::new(Universe {
         crash_req: (0..cfg.n_replicas).map(|_| AtomicU8::new(0)).collect(),
         cfg,
@@ -522,7 +522,6 @@ pub fn setup(cfg: UniverseCfg, server_rt: &tokio::runtime::Handle) -> Result<Set
         harness_errors: Mutex::new(Vec::new()),
         block_ids_built: Mutex::new(HashMap::new()),
         attempt_counter: AtomicU64::new(1),
-        next_heights: (0..n_replicas).map(|_| std::sync::atomic::AtomicU32::new(1)).collect(),
     });
     Ok(Setup { universe, phases })
 }
@@ -666,6 +665,7 @@ impl Universe {
     ) -> StepOutcome {
         let sh = &self.shared;
         let r = st.r;
+        sh.next_heights[r].store(st.next, Ordering::SeqCst);
         sh.in_leader_state[r].store(true, Ordering::SeqCst);
         let state = rt.block_on(async { tokio::time::timeout(WATCHDOG, adapter.leader_state(st.next.into())).await });
         sh.in_leader_state[r].store(false, Ordering::SeqCst);
@@ -848,7 +848,6 @@ pub fn replica_main(u: Arc<Universe>, r: usize) {
             let burst = if chance(&mut rng, 70) { u32::MAX } else { rng.gen_range(1..=3) };
             u.gossip_import(&mut st, burst);
         }
-        u.next_heights[r].store(st.next, Ordering::SeqCst);
         match u.replica_step(&mut st, &mut adapter, &rt, &mut || {}) {
             StepOutcome::Watchdog => break,
             StepOutcome::Follower => sleep_ms(cfg.follower_sleep_ms),
